@@ -163,9 +163,9 @@ def velocity_nested(size):
 def jobs(tier):
     q = tier == 'quick'
     js = []
-    for size in ([(1, 1), (1, 2)] if q else [(1, 1), (1, 2), (2, 2)]):
+    for size in ([(1, 1), (1, 2)] if q else [(1, 1), (1, 2), (2, 1)]):
         js.append(velocity_nested(size))
-    for (n, m) in ([(2, 2)] if q else [(2, 2), (2, 3), (3, 3)]):
+    for (n, m) in ([(2, 2)] if q else [(2, 2), (2, 3), (3, 2)]):
         js.append(match_events_mono(n, m))
     js.append(multipitch_frame_mono(2))
     for spec in T.SPECS:
@@ -179,13 +179,15 @@ def jobs(tier):
                         continue
                     if q and max(size) > 2 and not spec.name.startswith(('melody', 'alignment', 'key', 'tempo')):
                         continue
-                    if spec.name.startswith(('transcription', 'segment.detection')) and sum(size) > (3 if q else 4):
+                    if spec.name.startswith(('transcription', 'segment.detection')) and sum(size) > 3:
+                        continue
+                    if not q and max(size) > 3 and not spec.name.startswith(('melody', 'alignment', 'key', 'tempo')):
                         continue
                     js.append(mono_job(spec, size, kwname, outs))
         if spec.nested:
             for size in sizes:
                 js.append(nested_job(spec, size))
-    for size in ([(1, 1), (1, 2)] if q else [(1, 1), (1, 2), (2, 1), (2, 2)]):
+    for size in ([(1, 1), (1, 2)] if q else [(1, 1), (1, 2), (2, 1)]):
         js.append(transcription_nested(size, False))
     js.append(transcription_nested((1, 2), True))
     return js
